@@ -9,6 +9,7 @@ package props
 // enumerated instead of relying on the order one run happened to take.
 
 import (
+	"bytes"
 	"encoding/binary"
 	"encoding/json"
 	"fmt"
@@ -660,5 +661,28 @@ func c04Run(c c04Case, st *vlib.Stats) string {
 }
 
 func TestC04(t *testing.T) {
-	vlib.Drive(t, vlib.Prop[c04Case]{ID: "C04", Gen: c04Gen, Run: c04Run})
+	st := vlib.NewStats("C04")
+	defer st.Write(Cfg, "C04")
+	sysReplay := false
+	if Cfg.Replay != "" {
+		if raw, err := vlib.LoadReplay(Cfg.Replay); err == nil && bytes.Contains(raw, []byte(`"sys_setup"`)) {
+			sysReplay = true
+		}
+	}
+	if !sysReplay {
+		vlib.DriveWith(t, vlib.Prop[c04Case]{ID: "C04", Gen: c04Gen, Run: c04Run}, Cfg, st)
+	}
+	if st.Failed() || (Cfg.Replay != "" && !sysReplay) {
+		return
+	}
+	// process death at every physical write of a flush (c04sys_test.go)
+	scfg := Cfg
+	scfg.Checks = 2
+	if Cfg.Tier == "thorough" {
+		scfg.Checks = 8
+	}
+	vlib.DriveWith(t, vlib.Prop[c04SysCase]{ID: "C04", Gen: c04SysGen, Run: c04SysRun, Amend: func(c c04SysCase) c04SysCase {
+		c.KillAt = c04SysKill
+		return c
+	}}, scfg, st)
 }
